@@ -543,6 +543,12 @@ def main():
     if a.replay:
         run = os.path.join(a.replay, "run.sh")
         if not os.path.exists(run):
+            ce = os.path.join(a.replay, "counterexample.json")
+            if os.path.exists(ce):
+                # queries without a native twin (seam harnesses): show the solver's counterexample - query, failed properties, input values
+                print(open(ce).read())
+                print("(this query has no native replay: the values above are the solver's assignment to the harness inputs, in call order)")
+                sys.exit(1)
             print("no run.sh in", a.replay); sys.exit(2)
         bs = os.path.join(a.replay, "build.sh")
         if os.path.exists(bs):
